@@ -236,6 +236,16 @@ impl Results {
         }
     }
 
+    /// a plain type in the same module as the definition, described before and after it: unchanged, and at its own path
+    pub fn sibling(&mut self, def: &str, first: &Type<MetaForm>, again: &Type<MetaForm>) {
+        if first != again {
+            self.fail("C09", def, "sibling-changed", format!("{def}: a plain type in the same module is described differently after the definition was described: {:?} then {:?}", first.path.segments, again.path.segments));
+        }
+        if first.path.segments.last() != Some(&"Sibling") || !first.path.segments.iter().any(|s| *s == def.split(':').next().unwrap_or(def)) {
+            self.fail("C09", def, "sibling-path", format!("{def}: the plain sibling type is described at path {:?}", first.path.segments));
+        }
+    }
+
     /// C04: documented shape of a type without codec encoding
     pub fn shape(&mut self, def: &str, ok: bool, what: &str) {
         self.bump("C04");
